@@ -4,9 +4,11 @@
 package main
 
 import (
+	"bytes"
 	"fmt"
 	"go/ast"
 	"go/parser"
+	"go/printer"
 	"go/token"
 	"math/big"
 	"os"
@@ -838,6 +840,97 @@ func scanPhases(repo string) {
 	out.WriteString("def scanCollects : List (String × String) := [" + strings.Join(collects, ", ") + "]\n\n")
 }
 
+// ---------------------------------------------------------------- path-resolver call sites
+
+func qlist(xs []string) string {
+	var r []string
+	for _, x := range xs {
+		r = append(r, q(x))
+	}
+	return "[" + strings.Join(r, ", ") + "]"
+}
+
+func srcText(n ast.Node) string {
+	var b bytes.Buffer
+	printer.Fprint(&b, token.NewFileSet(), n)
+	return strings.Join(strings.Fields(b.String()), " ")
+}
+
+// resolverSites lists every call that tells the PathResolver something or asks it for a path,
+// outside path_resolver.go itself: (file, function, callee, arguments, innermost enclosing
+// `case` / `if` condition).
+func resolverSites(repo string) {
+	var rows []string
+	files, _ := filepath.Glob(filepath.Join(repo, "sizes", "*.go"))
+	files = append(files, filepath.Join(repo, "git-sizer.go"))
+	sort.Strings(files)
+	callees := map[string]bool{"RecordName": true, "RecordTreeEntry": true, "RecordCommit": true, "RecordTag": true,
+		"RequestPath": true, "ForgetPath": true, "setPath": true, "RegisterName": true}
+	for _, path := range files {
+		rel, _ := filepath.Rel(repo, path)
+		if strings.HasSuffix(rel, "_test.go") || rel == "sizes/path_resolver.go" {
+			continue
+		}
+		f := parse(path)
+		for _, d := range f.Decls {
+			fd, ok := d.(*ast.FuncDecl)
+			if !ok || fd.Body == nil {
+				continue
+			}
+			var stack []ast.Node
+			ast.Inspect(fd.Body, func(n ast.Node) bool {
+				if n == nil {
+					stack = stack[:len(stack)-1]
+					return true
+				}
+				stack = append(stack, n)
+				call, ok := n.(*ast.CallExpr)
+				if !ok {
+					return true
+				}
+				name := ""
+				switch t := call.Fun.(type) {
+				case *ast.Ident:
+					name = t.Name
+				case *ast.SelectorExpr:
+					name = t.Sel.Name
+				}
+				if !callees[name] {
+					return true
+				}
+				if fd.Name.Name == "setPath" || fd.Name.Name == name {
+					return true // the helper's own body / the one-line wrapper of the same name
+				}
+				var args []string
+				for _, a := range call.Args {
+					args = append(args, srcText(a))
+				}
+				ctx := ""
+				for i := len(stack) - 2; i >= 0 && ctx == ""; i-- {
+					switch t := stack[i].(type) {
+					case *ast.CaseClause:
+						if len(t.List) == 0 {
+							ctx = "default"
+						} else {
+							var cs []string
+							for _, c := range t.List {
+								cs = append(cs, srcText(c))
+							}
+							ctx = "case " + strings.Join(cs, ", ")
+						}
+					case *ast.IfStmt:
+						ctx = "if " + srcText(t.Cond)
+					}
+				}
+				rows = append(rows, fmt.Sprintf("  (%s, %s, %s, %s, %s)", q(rel), q(fd.Name.Name), q(name), qlist(args), q(ctx)))
+				return true
+			})
+		}
+	}
+	out.WriteString("/-- calls to the path resolver outside path_resolver.go: (file, function, callee, arguments, enclosing case/if) -/\n")
+	out.WriteString("def resolverSites : List (String × String × String × List String × String) := [\n" + strings.Join(rows, ",\n") + "]\n\n")
+}
+
 func main() {
 	if len(os.Args) != 3 {
 		fmt.Fprintln(os.Stderr, "usage: gofacts <repo> <outdir>")
@@ -859,6 +952,7 @@ func main() {
 	commandSites(repo)
 	closeSites(repo)
 	scanPhases(repo)
+	resolverSites(repo)
 	out.WriteString("end Gen.Cmds\n")
 	if err := os.WriteFile(filepath.Join(outdir, "Cmds.lean"), []byte(out.String()), 0o644); err != nil {
 		panic(err)
